@@ -1,4 +1,4 @@
-import OrdModel.Proofs.IndexMiscAddrChain
+import OrdModel.Proofs.IndexMiscAddrSpend
 /-
 C17 — the address index lists exactly the unspent outputs of each script.
 
@@ -72,6 +72,67 @@ theorem c17_special_rows (cfg : Cfg) (ha : cfg.indexAddresses = true) (chain : L
     | none => simp [he] at hsome
     | some e => exact ⟨e, rfl, by rw [hs]; exact T.special o e he hsp⟩
 
+/-- "Currently unspent": a real outpoint has an entry in OUTPOINT_TO_UTXO_ENTRY exactly when the
+chain created it (it is output `o.vout` of the transaction with txid `o.txid`) and no transaction of
+the chain spends it (`SpentBy`: an input of any transaction other than the first of its block — the
+indexer does not look at the inputs of the coinbase). -/
+theorem c17_utxo_domain_is_unspent (cfg : Cfg) (ha : cfg.indexAddresses = true) (chain : List Block)
+    (st : State) (evs : List Event) (hnd : NoDupTxids chain) (hrun : run cfg chain = .ok (st, evs))
+    (o : OutPoint) (hsp : o.isSpecial = false) :
+    (AL.get st.utxo o).isSome = true ↔ (∃ out, CreatedBy chain o out) ∧ ¬ SpentBy chain o := by
+  have T := run_table cfg ha chain st evs hnd hrun
+  have Sp := run_spend cfg ha chain st evs hnd hrun
+  constructor
+  · intro h
+    cases he : AL.get st.utxo o with
+    | none => simp [he] at h
+    | some e =>
+      obtain ⟨out, hc, _, _⟩ := T.real o e he hsp
+      refine ⟨⟨out, hc⟩, fun hs => ?_⟩
+      have := (Sp.gone o ((mem_spentList chain o).2 hs) hsp).1
+      rw [he] at this; cases this
+  · rintro ⟨⟨out, tx, htx, h1, h2⟩, hns⟩
+    have hv : o.vout < tx.outputs.length := by
+      rcases Nat.lt_or_ge o.vout tx.outputs.length with h | h
+      · exact h
+      · rw [List.getElem?_eq_none h] at h2; cases h2
+    have ho : (⟨tx.txid, o.vout⟩ : OutPoint) = o := by cases o; simp_all
+    rcases Sp.present tx htx o.vout hv with hp | hp | hp
+    · rw [ho] at hp; exact absurd ((mem_spentList chain o).1 hp) hns
+    · rw [ho] at hp; exact hp
+    · simp [AL.get] at hp
+
+/-- The headline statement: the outpoints listed for `script` are exactly the outputs paying to
+`script` that the chain created and has not spent (real outpoints; the special ones: `c17_special_rows`). -/
+theorem c17_listed_iff_unspent_output (cfg : Cfg) (ha : cfg.indexAddresses = true) (chain : List Block)
+    (st : State) (evs : List Event) (hnd : NoDupTxids chain) (hrun : run cfg chain = .ok (st, evs))
+    (script : List UInt8) (o : OutPoint) (hsp : o.isSpecial = false) :
+    (script, o) ∈ st.script2out ↔ (∃ out, CreatedBy chain o out ∧ out.script = script) ∧ ¬ SpentBy chain o := by
+  have T := run_table cfg ha chain st evs hnd hrun
+  have hdom := c17_utxo_domain_is_unspent cfg ha chain st evs hnd hrun o hsp
+  have huniq : ∀ out out', CreatedBy chain o out → CreatedBy chain o out' → out = out' := by
+    rintro out out' ⟨tx, htx, h1, h2⟩ ⟨tx', htx', h1', h2'⟩
+    have : tx = tx' := by
+      have hn := hnd.1
+      simp only [chainTxids] at hn
+      exact eq_of_nodup_txids hn htx htx' (h1.trans h1'.symm)
+    subst this
+    rw [h2] at h2'; exact Option.some.inj h2'
+  rw [T.exact script o]
+  constructor
+  · rintro ⟨e, he, hs⟩
+    obtain ⟨out, hc, h1, _⟩ := T.real o e he hsp
+    have := hdom.1 (by simp [he])
+    exact ⟨⟨out, hc, by rw [← h1, hs]⟩, this.2⟩
+  · rintro ⟨⟨out, hc, hs⟩, hns⟩
+    have := hdom.2 ⟨⟨out, hc⟩, hns⟩
+    cases he : AL.get st.utxo o with
+    | none => simp [he] at this
+    | some e =>
+      obtain ⟨out', hc', h1, _⟩ := T.real o e he hsp
+      have := huniq out out' hc hc'
+      exact ⟨e, rfl, by rw [h1, ← this, hs]⟩
+
 /-- One block step, as used by C16: the invariant is preserved by every successful `applyBlock`
 whose transactions have fresh, non-zero txids. -/
 theorem c17_block_step (cfg : Cfg) (ha : cfg.indexAddresses = true) (pre : List Tx) (st : State) (blk : Block)
@@ -106,5 +167,7 @@ example : (match run c17CfgEx c17ChainEx with
 #print axioms c17_listed_outputs
 #print axioms c17_special_rows
 #print axioms c17_block_step
+#print axioms c17_utxo_domain_is_unspent
+#print axioms c17_listed_iff_unspent_output
 
 end Ord.Index
